@@ -14,7 +14,7 @@ def load_registry(mods):
 
 
 def _work(args):
-    mods, qual, idx_list = args
+    mods, qual, shard = args
     reg = load_registry(mods)
     eng = Engine(reg)
     c = reg.contracts[qual]
@@ -29,8 +29,14 @@ def _work(args):
     if res.status == "ok":
         vac = check_satisfiable(eng.facts + eng.requires_pc)
         out["requires_sat"] = vac
-        for ob in res.obligations:
-            discharge(ob)
+        fast = bool(os.environ.get("PYVC_FAST"))
+        for n, ob in enumerate(res.obligations):
+            if shard is not None and n % shard[1] != shard[0]:
+                continue
+            if fast:
+                discharge(ob, timeout_ms=2000, use_cvc5=False, long_ms=1)
+            else:
+                discharge(ob)
             out["obligations"].append({"id": ob.oid, "key": ob.key, "kind": ob.kind, "line": ob.lineno,
                                        "verdict": ob.verdict, "backend": ob.backend, "time": round(ob.time, 3),
                                        "desc": ob.desc, "trace": ob.trace[-6:], "model": ob.model})
@@ -39,9 +45,27 @@ def _work(args):
 
 def verify(mods, quals, jobs=16):
     t0 = time.time()
-    tasks = [(mods, q, None) for q in quals]
+    reg = load_registry(mods)
+    tasks = []
+    for q in quals:
+        k = getattr(reg.contracts[q], "shards", 1)
+        if k <= 1:
+            tasks.append((mods, q, None))
+        else:
+            tasks += [(mods, q, (i, k)) for i in range(k)]
     with ProcessPoolExecutor(max_workers=min(jobs, max(1, len(tasks)))) as ex:
-        results = list(ex.map(_work, tasks))
+        parts = list(ex.map(_work, tasks))
+    # merge the shards of one function
+    merged = {}
+    for r in parts:
+        m = merged.get(r["qualname"])
+        if m is None:
+            merged[r["qualname"]] = r
+        else:
+            m["obligations"].extend(r["obligations"])
+            if r["status"] != "ok":
+                m["status"], m["reason"] = r["status"], r["reason"]
+    results = [merged[q] for q in quals]
     return results, time.time() - t0
 
 
